@@ -13,7 +13,10 @@ ID=$1; PATCH=$2; TIER=${3:-quick}
 git -C /tmp/mutrepo$S checkout -q --detach "$(git -C /repo rev-parse HEAD)"
 git -C /tmp/mutrepo$S checkout -- .
 mkdir -p /tmp/vmut$S
-rsync -a --delete --exclude .build --exclude out --exclude .git --exclude '*.vo' --exclude '*.vos' --exclude '*.vok' --exclude '*.glob' --exclude '.*.aux' /verif/ /tmp/vmut$S/
+rsync -a --delete --exclude .build --exclude out --exclude .git --exclude '*.vo' --exclude '*.vos' --exclude '*.vok' --exclude '*.glob' --exclude '.*.aux' --exclude 'coq/Gen*.v' /verif/ /tmp/vmut$S/
+# generated facts: copy by CONTENT (new mtime), never by mtime - a run on a mutated tree leaves a regenerated Gen*.v and a
+# newer .vo behind; restoring the reference copy with its old mtime would let make keep the stale .vo
+for g in /verif/coq/Gen*.v; do b=/tmp/vmut$S/coq/$(basename $g); cmp -s $g $b || cp $g $b; done
 if [ -n "$PATCH" ] && [ "$PATCH" != "-" ]; then git -C /tmp/mutrepo$S apply "$PATCH"; fi
 cd /tmp/vmut$S && VERIF_REPO=/tmp/mutrepo$S python3 check.py "$ID" --tier "$TIER" 2>&1 | grep -v '^KNOWN-FINDING' | tail -${TAILN:-6}
 git -C /tmp/mutrepo$S checkout -- .
